@@ -218,6 +218,23 @@ Theorem C08_key_and_user_admitted_stream : forall hash t name b cid ts ue uc use
 Proof. exact key_and_user_admitted_stream. Qed.
 Print Assumptions C08_key_and_user_admitted_stream.
 
+(* ... and over histories: every listener in the table of a reachable state is open, and a live stcp/sudp
+   registration admits every visitor that holds its key and whose user is allowed while the owner's accept queue is
+   not full - whatever happened before, refused duplicate registrations of the same name included *)
+Theorem C08_reachable_listeners_open : forall hash h n b,
+  vget n (s_vm (sys_state hash h)) = Some b -> vb_closed b = false.
+Proof. exact reachable_listeners_open. Qed.
+Print Assumptions C08_reachable_listeners_open.
+
+Theorem C08_key_and_user_admitted_live : forall hash h name r rid user ts ue uc cid,
+  sp_reg (spec_of h) name = Some r -> is_hole (vr_kind r) = false ->
+  spec_visitor_user (spec_of h) rid = Some user ->
+  In user (vr_allow r) \/ In vstar (vr_allow r) ->
+  (forall b, vget name (s_vm (sys_state hash h)) = Some b -> (length (vb_queue b) < vq_cap)%nat) ->
+  exists s', sys_step hash (sys_state hash h) (SVisitorConn rid name ts (hash (vr_sk r) ts) ue uc cid true) = (s', OVis VOk).
+Proof. exact key_and_user_admitted_live. Qed.
+Print Assumptions C08_key_and_user_admitted_live.
+
 (* the bytes that arrive together with the NewVisitorConnResp frame (a backend that speaks first, the IV of the
    cipher) are the beginning of the stream: decoding takes exactly the frame, the stack unwraps the rest *)
 Theorem C08_response_then_stream :
